@@ -1,1 +1,54 @@
 // Kani harnesses compiled as `mod verif_kani` inside /repo/src/daemon/http/request.rs (cfg(kani) only).
+//
+// Kernels: PathIter::{new, next, strip_trailing_slash, remaining, full}.
+use super::*;
+use crate::api::roa::verif_kani::any_ascii;
+
+fn check_path_iter<const N: usize>() {
+    let (buf, len) = any_ascii::<N>();
+    let Ok(s) = std::str::from_utf8(&buf[..len]) else { return };
+    let mut it = PathIter::new(s);
+    let mut n = 0;
+    let mut total = 0;
+    while n <= N {
+        match it.next() {
+            Some(seg) => {
+                // a segment never contains a slash and the segments add up
+                let b = seg.as_bytes();
+                let mut j = 0;
+                while j < b.len() { assert!(b[j] != b'/'); j += 1; }
+                total += b.len();
+            }
+            None => break,
+        }
+        n += 1;
+    }
+    assert!(it.next().is_none());
+    assert!(total <= len);
+    let t = PathIter::new(s).strip_trailing_slash();
+    assert!(t.full().len() <= len);
+    if let Some(r) = t.remaining() { assert!(r.len() <= len); }
+    kani::cover!(n >= 2);
+    kani::cover!(n == 1 && len > 0);
+}
+
+/// Every request path of up to 3 ASCII bytes (the HTTP layer rejects
+/// non-UTF-8 paths before): segmenting never panics, never slices out of
+/// bounds, segments are slash-free.
+// vk: timeout=900; bound=paths of 0..=3 ASCII bytes
+#[kani::proof]
+#[kani::unwind(6)]
+fn c16f_path_iter_3() {
+    check_path_iter::<3>();
+}
+
+// vk: tier=thorough; timeout=2400; bound=paths of 0..=4 ASCII bytes (5 bytes exceeded the 14 GB cap, 8 bytes ran out of memory)
+#[kani::proof]
+#[kani::unwind(7)]
+fn c16f_path_iter_4() {
+    check_path_iter::<4>();
+}
+
+#[cfg(test)]
+#[path = "/verif/.cache/playback/daemon_http_request.rs"]
+mod playback;
